@@ -332,12 +332,16 @@ func c12Prop(rt *rapid.T, rec *ev.Recorder) {
 		fatal(rt, "INCONCLUSIVE: world: %v", err)
 	}
 	defer w.close()
+	c12Pad = rapid.SampledFrom([]int{0, 0, 2, 3, 10}).Draw(rt, "zeroPaddedRequestNumbers")
+	if c12Pad > 0 {
+		rec.Class("worlds_whose_client_sends_zero_padded_decimal_numbers")
+	}
 	svc := bridgeservice.New(&bridgeservice.Config{Logger: log.WithFields("module", "c12"), Address: "127.0.0.1:0", ReadTimeout: 5 * time.Second, WriteTimeout: 5 * time.Second, NetworkID: jNetID},
 		w.si, w.sg, w.s1, w.s2)
 	if rapid.IntRange(0, 2).Draw(rt, "requestsWhileTheBridgeSyncerIsBehind") == 0 {
 		w.early = func(info, dep int) {
 			if info >= 0 && dep >= 0 {
-				_, _ = c12Get(svc.ClaimProofHandler, fmt.Sprintf("/claim-proof?network_id=0&leaf_index=%d&deposit_count=%d", info, dep))
+				_, _ = c12Get(svc.ClaimProofHandler, fmt.Sprintf("/claim-proof?network_id=0&leaf_index=%s&deposit_count=%s", c12Num(info), c12Num(dep)))
 			}
 		}
 	}
@@ -383,7 +387,7 @@ func c12Prop(rt *rapid.T, rec *ev.Recorder) {
 			if p.dep >= inf.MainCount {
 				continue // this leaf's exit roots do not cover the bridge yet
 			}
-			code, body := c12Get(svc.ClaimProofHandler, fmt.Sprintf("/claim-proof?network_id=0&leaf_index=%d&deposit_count=%d", p.info, p.dep))
+			code, body := c12Get(svc.ClaimProofHandler, fmt.Sprintf("/claim-proof?network_id=0&leaf_index=%s&deposit_count=%s", c12Num(p.info), c12Num(p.dep)))
 			if code != 200 {
 				fatal(rt, "claim-proof(mainnet bridge %d, L1 info leaf %d covering it) -> HTTP %d %s  [world %s]", p.dep, p.info, code, body, w.shape)
 			}
@@ -405,7 +409,7 @@ func c12Prop(rt *rapid.T, rec *ev.Recorder) {
 			if !inf.HasOurLER || p.dep >= inf.L2Count {
 				continue
 			}
-			code, body := c12Get(svc.ClaimProofHandler, fmt.Sprintf("/claim-proof?network_id=%d&leaf_index=%d&deposit_count=%d", jNetID, p.info, p.dep))
+			code, body := c12Get(svc.ClaimProofHandler, fmt.Sprintf("/claim-proof?network_id=%s&leaf_index=%s&deposit_count=%s", c12Num(jNetID), c12Num(p.info), c12Num(p.dep)))
 			if code != 200 {
 				fatal(rt, "claim-proof(L2 bridge %d, L1 info leaf %d covering it) -> HTTP %d %s  [world %s]", p.dep, p.info, code, body, w.shape)
 			}
@@ -424,7 +428,7 @@ func c12Prop(rt *rapid.T, rec *ev.Recorder) {
 		}
 		// ---- /l1-info-tree-index
 		check := func(net uint32, dep int, covers func(c12Info) bool, nDeps int) {
-			code, body := c12Get(svc.L1InfoTreeIndexForBridgeHandler, fmt.Sprintf("/l1-info-tree-index?network_id=%d&deposit_count=%d", net, dep))
+			code, body := c12Get(svc.L1InfoTreeIndexForBridgeHandler, fmt.Sprintf("/l1-info-tree-index?network_id=%s&deposit_count=%s", c12Num(net), c12Num(dep)))
 			first := -1
 			for i, inf := range w.infos {
 				if covers(inf) {
@@ -469,7 +473,7 @@ func c12Prop(rt *rapid.T, rec *ev.Recorder) {
 		}
 		// ---- /injected-l1-info-leaf
 		for x := 0; x <= len(w.infos); x++ {
-			code, body := c12Get(svc.InjectedL1InfoLeafHandler, fmt.Sprintf("/injected-l1-info-leaf?network_id=%d&leaf_index=%d", jNetID, x))
+			code, body := c12Get(svc.InjectedL1InfoLeafHandler, fmt.Sprintf("/injected-l1-info-leaf?network_id=%s&leaf_index=%s", c12Num(jNetID), c12Num(x)))
 			exists := false
 			for _, idx := range w.injected {
 				if int(idx) >= x {
@@ -517,4 +521,12 @@ func TestC12(t *testing.T) {
 	rec.Assume("every batch verification is followed by the L1 info update the contracts emit (the API's search documents this assumption)")
 	gin.SetMode(gin.ReleaseMode)
 	rapid.Check(t, func(rt *rapid.T) { c12Prop(rt, rec) })
+}
+
+// c12Num renders a numeric request parameter the way the world's client does: plain decimal, or zero-padded decimal
+// ("%03d", "%010d" - still decimal: 010 is ten).
+var c12Pad int
+
+func c12Num[T ~int | ~uint32 | ~uint64 | ~int64 | ~uint](x T) string {
+	return fmt.Sprintf("%0*d", c12Pad, uint64(x))
 }
